@@ -31,6 +31,18 @@ pub fn run(mut config: Config) -> ::anyhow::Result<()> {
         ));
     }
 
+    let max_response_peers_limit = workers::socket::max_response_peers_limit(
+        workers::socket::response_buffer_len(&config),
+    );
+
+    if config.protocol.max_response_peers > max_response_peers_limit {
+        return Result::Err(anyhow::anyhow!(
+            "protocol.max_response_peers is set to {}, but responses with more than {} peers do not fit in the response buffer",
+            config.protocol.max_response_peers,
+            max_response_peers_limit
+        ));
+    }
+
     if config.socket_workers == 0 {
         config.socket_workers = available_parallelism().map(Into::into).unwrap_or(1);
     };
